@@ -382,7 +382,7 @@ theorem excerpt_snd (isWord : Char → Bool) (sa eb : Option Line) (lines : List
       (match sa, eb with
         | some _, some e =>
           (match firstMatch isWord e lines with
-           | some j => if j ≤ lowerBound isWord sa lines then [Diag.order] else []
+           | some j => if j < lowerBound isWord sa lines then [Diag.order] else []
            | none => [])
         | _, _ => []) := by
   cases sa with
